@@ -61,15 +61,22 @@ class C24(Check):
         model: dict[str, set] = {e: set() for e in entities}
         ever: dict[str, set] = {e: set() for e in entities}
         ops = []
+        issued: list = []
         faults_on = bool(ch.choice(2, "faults-on"))
         nops = 1 + ch.choice(15, "nops")
         try:
             for step in range(nops):
                 e = entities[ch.choice(len(entities), "entity")]
                 kind = ch.choice(3, "op")
-                npairs = 1 + ch.choice(2, "npairs")
+                npairs = 1 + ch.choice(3, "npairs")
                 pairs = [(keys[ch.choice(2, "key")], VALUES[ch.choice(len(VALUES), "value")])
                          for _ in range(npairs)]
+                if issued and ch.coin(0.3, "reissue"):
+                    # the same command line issued again later (e.g. after its pairs were
+                    # removed or superseded in the meantime)
+                    pairs = list(issued[ch.choice(len(issued), "reissue-which")])
+                    out.probe("reissued_commands")
+                issued.append(tuple(pairs))
                 plan = None
                 if faults_on and ch.coin(0.4, "fault?"):
                     plan = histsim.DbFaultPlan(error_at_stmt=1 + ch.choice(8, "stmt"),
